@@ -496,6 +496,18 @@ impl OtlpTransportBuilder {
                         let metrics = metrics.clone();
 
                         async move {
+                            // A gRPC response always has a 2xx HTTP status; anything else has come
+                            // from something in between, like a proxy, and carries no gRPC status
+                            let http_status = res.http_status();
+
+                            if !(http_status >= 200 && http_status < 300) {
+                                metrics.grpc_batch_failed.increment();
+
+                                return Err(Error::msg(format_args!(
+                                    "OTLP gRPC server responded with HTTP status {http_status}"
+                                )));
+                            }
+
                             // A server may respond with its status in the headers instead of
                             // the trailers if it doesn't send any content, typically on failure
                             let mut status = res
